@@ -107,6 +107,14 @@ def run(ctx):
             nx = c["nr"] if T else c["nc"]; nb = c["nr"]
             X = gen.rand_vec(rng, nx); B = gen.rand_vec(rng, nb)
             vt = [nx] + [nums.tok_num(v) for v in X] + [nb] + [nums.tok_num(v) for v in B]
+            if P >= 6 and k < 10 and not blk:
+                # directed: transpose products through the node-aware package with more destination nodes than ranks per node
+                n_ = rng.randint(12, 20); fr_ = commgen.rand_partition(rng, P, n_)
+                c.update(nr=n_, nc=n_, fr=fr_, fc=list(fr_), explicit=True, trip=gen.rand_triples(rng, n_, n_, n_ * n_ // 2))
+                kind = "mult_T" if k % 2 == 0 else rng.choice(KINDS); tap = rng.choice([1, 1, 10, 12]); ppn = 2
+                T = kind == "mult_T"; nx = c["nr"] if T else c["nc"]; nb = c["nr"]
+                X = gen.rand_vec(rng, nx); B = gen.rand_vec(rng, nb)
+                vt = [nx] + [nums.tok_num(v) for v in X] + [nb] + [nums.tok_num(v) for v in B]
             c.update(kind=kind, fmt=fmt, tap=tap, ppn=ppn, X=X, B=B,
                      line=" ".join(str(x) for x in [c["cid"], "pspmv", kind, fmt, tap, ppn] + parlit_tokens(c, c["explicit"]) + vt),
                      mline=" ".join(str(x) for x in [c["cid"], "pspmv", kind] + parlit_tokens(c, True) + vt))
